@@ -9,24 +9,34 @@ DRIVER = "C28"
 GENERATED = ["storage"]
 SOURCES = ["src/allmydata/storage/server.py", "src/allmydata/storage/immutable.py", "src/allmydata/util/fileutil.py"]
 DESIGN_REF = "DESIGN.md §2 C28"
-TECHNIQUE = ("Lean 4 theorems over the executable model of allocate_buckets' space accounting (remaining = available - sum of "
-             "in-progress reservations, per-share acceptance test, release in bucket_writer_closed, read-only servers); "
-             "differential correspondence of seeded allocate/write/close/abort/timeout histories against a real "
-             "StorageServer whose os.statvfs is patched to a simulated disk")
-LEVEL_TEXT = ("never_overcommits, released_on_close_or_abort and readonly_accepts_none are proved in Lean for every state, "
-              "request and disk reading; the model is tied to the code by comparing accepted sets, allocated_size() and "
-              "container bytes of seeded histories over random capacities, reserved_space settings and read-only servers.")
-LEVEL_NOTE = ("Lean kernel + standard axioms; model hand-written, tied by correspondence; the model contains the repair "
-              "fixes/C28-readonly.diff (a read-only server refuses zero-size shares too).")
+TECHNIQUE = ("Lean 4 theorems over the executable model of allocate_buckets' space accounting (disk-stats step f_bavail*f_frsize "
+             "minus reserved_space floored at 0, remaining = available - sum of in-progress reservations, per-share acceptance "
+             "test, release in bucket_writer_closed incl. abort's directory cleanup, Foolscap disconnects, read-only servers); "
+             "differential correspondence of seeded allocate/write/close/abort/timeout/disconnect histories against a real "
+             "StorageServer whose os.statvfs is patched to a simulated statvfs record")
+LEVEL_TEXT = ("Proved in Lean: never_overcommits and never_overcommits_statvfs (every state, request and statvfs record), "
+              "released_on_close_or_abort, abort_always_releases (reachable states of the server with its directory tree; sibling "
+              "uploads present or not), lost_connection_releases_space (reachable states, Foolscap disconnect), "
+              "readonly_accepts_none (any size; the repair fixes/C28-readonly.diff is in /repo since fb80776; "
+              "readonly_accepts_none_unfixed_counterexample / readonly_unfixed_partial describe the pre-fix code only). "
+              "The model is tied to the code by comparing accepted sets, allocated_size() and container bytes of seeded histories "
+              "over random statvfs geometries, capacities, reserved_space settings and read-only servers; a fixed corpus "
+              "(seeds C28-a..e, C22-b, the repaired read-only defect) runs first.")
+LEVEL_NOTE = ("Lean kernel + standard axioms; model hand-written, tied by correspondence; get_disk_stats' formula is modelled as "
+              "freeBytes/diskAvail and exercised through the real fileutil code on a patched os.statvfs (f_bsize != f_frsize "
+              "geometries included); platforms without statvfs (get_available_space() = None) are not modelled.")
 RULE = ("seeded histories (10-40 ops) against a real StorageServer with a simulated disk (os.statvfs record: f_bavail 0..250 "
-        "per call, f_frsize 1/2/4/8 with f_bsize equal, larger, smaller or 0; fixed corpus with 4096/1MiB, 4096/64KiB, 512/4096), "
-        "reserved_space in {0,10,60,1000}, 1 in 4 servers read-only; a case is one operation; distinct = distinct "
+        "per call, f_frsize 1/2/4/8 with f_bsize equal, larger, smaller or 0; fixed corpus with 4096/4096, 4096/1MiB, 4096/64KiB, "
+        "512/4096, f_bsize 0), reserved_space in {0,10,60,1000}, 1 in 4 servers read-only, half of the histories through the "
+        "Foolscap front end; VERIF_CORPUS_ONLY=1 runs the fixed corpus only; a case is one operation; distinct = distinct "
         "(configuration, history prefix digest, op); non-trivial = allocate_buckets calls and every op while an upload is in progress")
 TRUSTED = ["lean/Tahoe/Storage/Immutable.lean is a hand transcription of storage/immutable.py and the immutable part of storage/server.py",
            "harness/shims/collections_extended (RangeMap stand-in used by BucketWriter._already_written)",
-           "os.statvfs patched to a simulated disk (block size 1); the real fileutil.get_disk_stats formula runs",
-           "lease records are serialised by the real HashedLeaseSerializer and passed to the model as opaque bytes"]
-ASSUMPTIONS = ["the platform offers statvfs (get_available_space never returns None)",
+           "os.statvfs patched to a simulated statvfs record (f_frsize, f_bsize, f_blocks, f_bfree, f_bavail); the real "
+           "fileutil.get_disk_stats / get_available_space code runs on it",
+           "lease records are serialised by the real HashedLeaseSerializer and passed to the model as opaque bytes",
+           "harness Canary object standing in for a foolscap RemoteReference (Broker semantics)"]
+ASSUMPTIONS = ["the platform offers statvfs (get_available_space never returns None) - not modelled otherwise",
                "the disk's free space is constant during one allocate_buckets call",
                "single-threaded server; no other process modifies the storage directory"]
 
